@@ -38,6 +38,10 @@ def regular_file_or_default_suite_file(path: Path) -> Path:
     except FileNotFoundError:
         raise FileNotAccessibleSimpleError(path,
                                            utils.ERR_MSG__NOT_EXISTS)
+    except OSError as ex:
+        # E.g. a component of the path is not a directory, or a loop of symbolic links
+        raise FileNotAccessibleSimpleError(path,
+                                           str(ex))
 
     if stat.S_ISREG(stat_mode):
         return path
